@@ -856,10 +856,10 @@ def ListP (sty : Style) (mode : Mode) (xs : Exprs) : Prop :=
 
 theorem listP_one {sty mode a} (ha : Core sty mode a) : ListP sty mode (.cons a .nil) := by
   intro rest f hf
-  simp only [printList, commaToks, List.length_append, List.length_cons, List.length_nil] at hf
+  simp only [printList, List.length_append, List.length_cons, List.length_nil] at hf
   obtain ⟨f', rfl⟩ : ∃ f', f = f' + 1 := ⟨f - 1, by omega⟩
-  simp only [printList, commaToks, List.append_assoc, List.cons_append, List.nil_append]
-  apply listExpr_single (r1 := ws? sty.aroundComma ++ .comma :: (ws? sty.aroundComma ++ .rp :: rest))
+  simp only [printList, List.append_assoc, List.cons_append, List.nil_append]
+  apply listExpr_single (r1 := ws? sty.beforeComma ++ .comma :: (ws? sty.insideParens ++ .rp :: rest))
   · rw [skipWs_ws _ _ (noWs_of_headStart _ (headStart_append _ _ (headStart_printToks ..)))]
     exact core_zero ha _ (by simp) f' (by omega)
   · exact skipWs_ws _ _ rfl
@@ -874,7 +874,7 @@ theorem listP_many {sty mode a b t} (ha : Core sty mode a) (ht : ItemsP sty mode
   simp only [printList, paren, printArgs_cons2, commaToks, List.append_assoc, List.cons_append,
     List.nil_append]
   apply listExpr_items
-    (r1 := ws? sty.aroundComma ++ .comma :: (ws? sty.aroundComma ++
+    (r1 := ws? sty.beforeComma ++ .comma :: (ws? sty.afterComma ++
       (printArgs sty mode (.cons b t) ++ (ws? sty.insideParens ++ .rp :: rest))))
     (e := a)
   · rw [skipWs_ws _ _ (noWs_of_headStart _ (headStart_append _ _ (headStart_printToks ..)))]
@@ -887,9 +887,9 @@ theorem listP_many {sty mode a b t} (ha : Core sty mode a) (ht : ItemsP sty mode
 
 theorem pre_list_one {sty mode a} (ha : Core sty mode a) : Pre sty mode (.list (.cons a .nil)) := by
   intro rest _ _ f hf
-  simp only [printToks, printList, commaToks, List.length_append, List.length_cons, List.length_nil] at hf
+  simp only [printToks, printList, List.length_append, List.length_cons, List.length_nil] at hf
   obtain ⟨f', rfl⟩ : ∃ f', f = f' + 2 := ⟨f - 2, by omega⟩
-  simp only [printToks, printList, commaToks, List.append_assoc, List.cons_append, List.nil_append]
+  simp only [printToks, printList, List.append_assoc, List.cons_append, List.nil_append]
   rw [prefix_lp, skipWs_ws _ _ (noWs_of_headStart _ (headStart_append _ _ (headStart_printToks ..)))]
   exact paren_single _ _ _ _ _ _ (core_zero ha _ (by simp) f' (by omega)) (skipWs_ws _ _ rfl)
     (skipWs_ws _ _ rfl)
@@ -904,7 +904,7 @@ theorem pre_list_many {sty mode a b t} (ha : Core sty mode a) (ht : ItemsP sty m
     List.cons_append, List.nil_append]
   rw [prefix_lp, skipWs_ws _ _ (noWs_of_headStart _ (headStart_append _ _ (headStart_printToks ..)))]
   apply paren_items (e := a)
-    (r := ws? sty.aroundComma ++ .comma :: (ws? sty.aroundComma ++
+    (r := ws? sty.beforeComma ++ .comma :: (ws? sty.afterComma ++
       (printArgs sty mode (.cons b t) ++ (ws? sty.insideParens ++ .rp :: rest))))
   · exact core_zero ha _ (by simp) f' (by omega)
   · exact skipWs_ws _ _ rfl
@@ -1007,9 +1007,9 @@ theorem pre_call_many {sty mode a b t} (fn : Ident) (ha : Core sty mode a)
     fun X => headStart_append _ _ (headStart_printArgs ..)
   rw [prefix_call_args, skipWs_ws _ _ (noWs_of_headStart _ (hs _))]
   · rw [callArgs_items (e := a) (items := .cons a (.cons b t)) (r4 := rest)
-      (r1 := ws? sty.aroundComma ++ .comma :: (ws? sty.aroundComma ++
+      (r1 := ws? sty.beforeComma ++ .comma :: (ws? sty.afterComma ++
         (printArgs sty mode (.cons b t) ++ (ws? sty.insideParens ++ .rp :: rest))))
-      (r2 := ws? sty.aroundComma ++
+      (r2 := ws? sty.afterComma ++
         (printArgs sty mode (.cons b t) ++ (ws? sty.insideParens ++ .rp :: rest)))]
     · exact finishCall_ok _ _ _ hfo (functionCall_of_callOk fn _ hc)
     · exact notNamed_of_core ha _ (by simp)
@@ -1107,7 +1107,7 @@ theorem pre_coll_none {sty mode} (ow : Expr) (how : pathOk ow = true) :
 
 theorem lambda_ok {sty mode b} (hb : Core sty mode b) (v : Ident) (rest : List Tok) :
     ∀ f, 2 + 4 * (printToks sty mode b).length ≤ f →
-      parseLambda false f (.ident v :: (ws? sty.aroundColon ++ .colon :: (ws? sty.aroundColon ++
+      parseLambda false f (.ident v :: (ws? sty.beforeColon ++ .colon :: (ws? sty.afterColon ++
         (printToks sty mode b ++ (ws? sty.insideParens ++ .rp :: rest)))))
       = .ok (.some v b, ws? sty.insideParens ++ .rp :: rest) := by
   intro f hf
@@ -1127,7 +1127,7 @@ theorem pre_coll_some {sty mode b} (ow : Expr) (op : CollOp) (v : Ident) (how : 
   rw [prefix_path]
   · have := parsePath_segs (some (op, .some v b))
       (.slash :: (if op = .any then Tok.any else Tok.all) :: .lp :: (ws? sty.insideParens ++
-        .ident v :: (ws? sty.aroundColon ++ .colon :: (ws? sty.aroundColon ++
+        .ident v :: (ws? sty.beforeColon ++ .colon :: (ws? sty.afterColon ++
           (printToks sty mode b ++ (ws? sty.insideParens ++ .rp :: rest))))))
       rest (3 + 4 * (printToks sty mode b).length)
       (fun j f hf => by
